@@ -263,6 +263,54 @@ let run_outline line =
     ts ^ " " ^ String.concat "," (List.map (fun n -> string_of_int (int_of_nat n)) back) ^ " " ^ (if properly_nested levels then "1" else "0")
   | _ -> "?"
 
+(* ---------- metadata switch: "<flags,> <FORMAT> key=value ..." (hex) -> the settings process_metadata_stack leaves behind *)
+let cstr (s : Stdlib.String.t) =
+  let bit c i = (Char.code c lsr i) land 1 = 1 in
+  let rec go i = if i >= String.length s then EmptyString
+    else String (Ascii (bit s.[i] 0, bit s.[i] 1, bit s.[i] 2, bit s.[i] 3, bit s.[i] 4, bit s.[i] 5, bit s.[i] 6, bit s.[i] 7), go (i + 1)) in
+  go 0
+let ostr cs =
+  let b = Buffer.create 16 in
+  let rec go = function
+    | EmptyString -> ()
+    | String (Ascii (b0, b1, b2, b3, b4, b5, b6, b7), r) ->
+      let v = List.fold_left (fun acc (x, i) -> if x then acc lor (1 lsl i) else acc) 0 [(b0,0);(b1,1);(b2,2);(b3,3);(b4,4);(b5,5);(b6,6);(b7,7)] in
+      Buffer.add_char b (Char.chr v); go r in
+  go cs; Buffer.contents b
+let c_atoi (v : n list) =
+  (* atoi: optional white space, optional sign, digits *)
+  let s = string_of_bytes v in
+  let n = String.length s in
+  let i = ref 0 in
+  while !i < n && (s.[!i] = ' ' || (s.[!i] >= '\t' && s.[!i] <= '\r')) do incr i done;
+  let neg = !i < n && s.[!i] = '-' in
+  if !i < n && (s.[!i] = '-' || s.[!i] = '+') then incr i;
+  let acc = ref 0 in
+  while !i < n && s.[!i] >= '0' && s.[!i] <= '9' && !acc < 100000000 do acc := !acc * 10 + Char.code s.[!i] - 48; incr i done;
+  z_of_int (if neg then - !acc else !acc)
+let run_metaswitch line =
+  match split_on ' ' line with
+  | flags :: fmt :: kvs ->
+    let fl = List.map cstr (split_on ',' flags) in
+    let st0 v = match ostr v with
+      | "scratch->extensions" -> VFlags fl
+      | "scratch->output_format" -> VC (cstr fmt)
+      | "scratch->language" -> VC (cstr "LC_EN")
+      | "scratch->quotes_lang" -> VC (cstr "ENGLISH")
+      | "scratch->base_header_level" -> VZ (z_of_int 1)
+      | _ -> VUnset in
+    let ms = List.filter_map (fun kv -> match String.index_opt kv '=' with
+      | Some i -> Some (bytes_of_hex (String.sub kv 0 i), bytes_of_hex (String.sub kv (i + 1) (String.length kv - i - 1)))
+      | None -> None) kvs in
+    let st = process c_atoi label_from_string ms st0 in
+    let show v = match st (cstr v) with
+      | VZ z -> string_of_int (int_of_z z) | VS b -> "s" ^ hex_of_bytes b | VC c -> ostr c | VFlags _ -> "flags" | VUnset -> "-" in
+    Printf.sprintf "complete=%d hl=%s lang=%s quotes=%s fmt=%s bib=%s control=%s"
+      (if has_flag (st (cstr "scratch->extensions")) (cstr "EXT_COMPLETE") then 1 else 0)
+      (show "scratch->base_header_level") (show "scratch->language") (show "scratch->quotes_lang") (show "scratch->output_format") (show "scratch->bibtex_file")
+      (String.concat "" (List.map (fun (k, _) -> if is_control k then "1" else "0") ms))
+  | _ -> "?"
+
 let () =
   let model = Sys.argv.(1) in
   let f = match model with
@@ -277,6 +325,7 @@ let () =
     | "anchors" -> run_anchors
     | "hid" -> run_hid
     | "outline" -> run_outline
+    | "metaswitch" -> run_metaswitch
     | _ -> failwith "unknown model" in
   try while true do
     let line = input_line stdin in
